@@ -67,8 +67,10 @@ def _parse(out, res):
             res.error, res.error_name = "invariant", m1.group(1)
         elif m2:
             res.error, res.error_name = "action_property", m2.group(1)
-        elif "Temporal properties were violated" in msg:
+        elif "Temporal propert" in msg and "violated" in msg:
             res.error = "temporal"
+            mt = re.match(r"Temporal property (\S+) was violated", msg)
+            res.error_name = mt.group(1) if mt else None
         elif "Deadlock reached" in msg:
             res.error = "deadlock"
         elif "Assumption" in msg:
